@@ -139,10 +139,10 @@ Proof.
       destruct (take_drop 4 s1 ltac:(lia)) as [Hs1 Hd]. set (d := takeN 4 s1) in *. set (s2 := dropN 4 s1) in *.
       apply IH in H. destruct H as (cs & Hs2 & Hn2 & Hle & Hn1' & Hwf & Hr).
       exists ({| c_code := code; c_val := d |} :: cs).
-      cbn [map concat fold_left]. rewrite len_app, len_ser_cap. unfold ser_cap. cbn [c_code c_val]. rewrite Hd.
+      cbn [map concat fold_left]. rewrite len_app, len_ser_cap. unfold ser_cap at 1. cbn [c_code c_val]. rewrite Hd. clearbody d s2.
       repeat split.
       * rewrite Hn3. rewrite Hs1 at 1. rewrite Hs2. cbn [app]. rewrite <- app_assoc. reflexivity.
-      * Show. lia.
+      * lia.
       * lia.
       * lia.
       * constructor; [|assumption]. unfold wf_cap. cbn [c_code c_val]. intros _. exact Hd.
@@ -155,7 +155,7 @@ Proof.
       rewrite Hmd in H. fold s2 in H.
       apply IH in H. destruct H as (cs & Hs2 & Hn2 & Hle & Hn1' & Hwf & Hr).
       exists ({| c_code := code; c_val := v |} :: cs).
-      cbn [map concat fold_left]. rewrite len_app, len_ser_cap. unfold ser_cap. cbn [c_code c_val]. rewrite Hd.
+      cbn [map concat fold_left]. rewrite len_app, len_ser_cap. unfold ser_cap at 1. cbn [c_code c_val]. rewrite Hd. clearbody v s2.
       apply orb_false_iff in Ec. destruct Ec as [E65 E1].
       repeat split.
       * rewrite Hs1 at 1. rewrite Hs2. cbn [app]. rewrite <- app_assoc. reflexivity.
